@@ -287,6 +287,10 @@ impl Harness {
                 self.handles.insert(to, handle);
             }
             Event::DropHandle(handle) => drop(self.handles.remove(&handle).ok_or(BadScript)?),
+            Event::Threads(n, k) => {
+                let handle = self.handles.get(&0).ok_or(BadScript)?.clone();
+                ops::start_from_threads(handle, n, k);
+            }
         }
 
         Ok(())
